@@ -84,6 +84,42 @@ func (s strokeStyle) name() string { return capNames[s.cap] + ":" + joinNames[s.
 //	       wedge of a bevel/miter join)
 //	bit 1: inside a square cap (w/2 beyond an open end) or within limit*w/2 of a join vertex of a
 //	       miter/arcs join -> "farther than w/2 + tol => not filled" is not demanded
+//
+// joinFilled: p lies in the part of the join at vertex v (previous vertex a, next vertex b) that the
+// joiner must fill on the outer side of the bend, inside the wedge between the two end normals:
+// every joiner fills the bevel triangle; a round join the sector of radius w/2; an unclipped miter
+// (Miter/MiterClip always, Arcs/ArcsClip only between straight segments) the kite up to the
+// intersection of the two outer offset lines. `in` shrinks the shapes by the tolerance band.
+func joinFilled(p, a, v, b hc.P2, st strokeStyle, hw, lo, band float64, straight bool) bool {
+	d0, d1 := unit(v.Sub(a)), unit(b.Sub(v))
+	q := p.Sub(v)
+	if q.Dot(d0) < 0 || q.Dot(d1) > 0 {
+		return false // not in the wedge
+	}
+	if st.join == 1 {
+		return q.Len() < lo
+	}
+	cr := d0.Cross(d1)
+	if math.Abs(cr) < 1e-9 {
+		return false // straight on, or a 180 degree reversal: no outer side
+	}
+	n0, n1 := hc.P2{X: d0.Y, Y: -d0.X}, hc.P2{X: d1.Y, Y: -d1.X} // left bend: outer side is the right
+	if cr < 0 {
+		n0, n1 = n0.Mul(-1), n1.Mul(-1)
+	}
+	in := lo
+	m := unit(n0.Add(n1))
+	if q.Dot(m) < in*m.Dot(n0) {
+		return true // bevel triangle
+	}
+	lim := math.Max(st.limit, 1.001)
+	if (st.join == 2 || st.join == 3 || (straight && st.join >= 4)) && lim*lim*(1+n0.Dot(n1)) > 2*(1+1e-6) {
+		return q.Dot(n0) < in && q.Dot(n1) < in
+	}
+	_ = band
+	return false
+}
+
 func flagsFor(p hc.P2, pls []polyline, st strokeStyle, hw, lo, band float64) int {
 	guaranteed := false
 	farExempt := false
@@ -128,7 +164,7 @@ func flagsFor(p hc.P2, pls []polyline, st strokeStyle, hw, lo, band float64) int
 				// a round join adds the sector between the two normals on the outer side: points of the
 				// disc that project beyond the end of the previous and before the start of the next segment
 				a, b := pl.pts[(i+n-1)%n], pl.pts[(i+1)%n]
-				if st.join == 1 && p.Dist(v) < lo && p.Sub(v).Dot(v.Sub(a)) >= 0 && p.Sub(v).Dot(b.Sub(v)) <= 0 {
+				if joinFilled(p, a, v, b, st, hw, lo, band, true) {
 					guaranteed = true
 				}
 				lim := math.Max(st.limit, 1.001)
@@ -464,6 +500,12 @@ func regionFlat(c *hc.Ctx) {
 		band := tol + snapMargin
 		lo, hi := hw-band, hw+band
 		pts := probePoints(c, pls, res, hw, band, 48, st)
+		if jp := joinProbes(c, pls, func(hc.P2) bool { return true }, hw, st, 3); len(jp) > 0 {
+			if len(jp) > 18 {
+				jp = jp[:18]
+			}
+			pts = append(pts, jp...)
+		}
 		fl := make([]int, len(pts))
 		for i, pt := range pts {
 			fl[i] = flagsFor(pt, pls, st, hw, lo, band)
@@ -678,12 +720,85 @@ func offsetClosed(c *hc.Ctx) {
 // ---------------------------------------------------------------------------------------------
 // 6. curved inputs: Go-side oracle with an independent fine flattening of the input
 
+// genTeardrop: a closed subpath of exactly ONE segment - a cubic that returns to its start point - with
+// the corner angle at that point varied (half opening angle beta 8..82 degrees: turn 164..16 degrees),
+// both orientations, rotated and translated. offset() joins the segment with itself at that vertex.
+func genTeardrop(c *hc.Ctx) (*canvas.Path, string) {
+	beta := []float64{8, 15, 30, 45, 45, 60, 75, 82}[c.Intn(8)]
+	if c.Chance(0.4) {
+		beta = c.Range(8, 82)
+	}
+	l := float64(6 + c.Intn(10))
+	rot := float64(c.Intn(24)) * 15
+	if c.Bool() {
+		rot = c.Range(0, 360)
+	}
+	px, py := float64(c.Intn(9)-4), float64(c.Intn(9)-4)
+	a0, a1 := (rot+90-beta)*math.Pi/180, (rot+90+beta)*math.Pi/180
+	c1 := hc.P2{X: px + l*math.Cos(a0), Y: py + l*math.Sin(a0)}
+	c2 := hc.P2{X: px + l*math.Cos(a1), Y: py + l*math.Sin(a1)}
+	class := "closed-single-cubic-ccw"
+	if c.Bool() {
+		c1, c2 = c2, c1
+		class = "closed-single-cubic-cw"
+	}
+	p := &canvas.Path{}
+	p.MoveTo(px, py)
+	p.CubeTo(c1.X, c1.Y, c2.X, c2.Y, px, py)
+	p.Close()
+	return p, class
+}
+
+// joinProbes: points on the outer side of every join vertex, inside the wedge between the two end
+// normals, from well inside the bevel triangle out to the round-join arc / the miter tip.
+func joinProbes(c *hc.Ctx, pls []polyline, isJoin func(hc.P2) bool, hw float64, st strokeStyle, per int) []hc.P2 {
+	var out []hc.P2
+	for _, pl := range pls {
+		n := len(pl.pts)
+		for i, v := range pl.pts {
+			if (!pl.closed && (i == 0 || i == n-1)) || !isJoin(v) {
+				continue
+			}
+			a, b := pl.pts[(i+n-1)%n], pl.pts[(i+1)%n]
+			d0, d1 := unit(v.Sub(a)), unit(b.Sub(v))
+			cr := d0.Cross(d1)
+			if math.Abs(cr) < 1e-6 {
+				continue
+			}
+			n0, n1 := hc.P2{X: d0.Y, Y: -d0.X}, hc.P2{X: d1.Y, Y: -d1.X}
+			if cr < 0 {
+				n0, n1 = n0.Mul(-1), n1.Mul(-1)
+			}
+			m := unit(n0.Add(n1))
+			cosHalf := m.Dot(n0)
+			half := math.Acos(math.Max(-1, math.Min(1, cosHalf)))
+			rmax := 1.0
+			if st.join >= 2 && cosHalf > 1e-3 {
+				rmax = math.Min(1/cosHalf, math.Max(st.limit, 1.001)) // miter tip, or the limit
+			}
+			for k := 0; k < per; k++ {
+				phi := c.Range(-0.9, 0.9) * half
+				r := hw * c.Range(0.3, 1.05*rmax)
+				if k%3 == 0 { // between the bevel chord and the arc / the tip
+					r = hw * c.Range(cosHalf, rmax)
+				}
+				sn, cs := math.Sincos(phi)
+				dir := hc.P2{X: m.X*cs - m.Y*sn, Y: m.X*sn + m.Y*cs}
+				out = append(out, v.Add(dir.Mul(r)))
+			}
+		}
+	}
+	return out
+}
+
 func regionCurved(c *hc.Ctx) {
 	n := c.N / 2
 	for it := 0; it < n; it++ {
 		var P *canvas.Path
 		class := ""
-		switch c.Intn(6) {
+		switch c.Intn(8) {
+		case 6, 7:
+			P, class = genTeardrop(c)
 		case 0:
 			P = canvas.Circle(float64(1+c.Intn(5))).Translate(float64(c.Intn(5)-2), float64(c.Intn(5)-2))
 			class = "circle"
@@ -794,7 +909,11 @@ func regionCurved(c *hc.Ctx) {
 				}
 			}
 		}
+		if beyondInradius(pls, hw) {
+			suffix += "+beyond-inradius"
+		}
 		pts := probePoints(c, pls, res, hw, band, 40, st)
+		pts = append(pts, joinProbes(c, pls, func(v hc.P2) bool { return joinsAt[v] }, hw, st, 9)...)
 		lim := math.Max(st.limit, 1.001)
 		verdict := ""
 		for _, pt := range pts {
@@ -851,7 +970,7 @@ func regionCurved(c *hc.Ctx) {
 							}
 						case joinsAt[v]:
 							a, b := pl.pts[(i+np-1)%np], pl.pts[(i+1)%np]
-							if stf.join == 1 && pt.Dist(v) < lo && pt.Sub(v).Dot(v.Sub(a)) >= 0 && pt.Sub(v).Dot(b.Sub(v)) <= 0 {
+							if joinFilled(pt, a, v, b, stf, hw, lo, band, false) {
 								guaranteed = true
 							}
 							if stf.join >= 2 && pt.Dist(v) <= lim*hw+band {
@@ -892,6 +1011,15 @@ func regionCurved(c *hc.Ctx) {
 				cls := "spurious"
 				if d <= hi+canvas.Tolerance {
 					cls += "-within-global-Tolerance"
+				} else if st.join == 3 || st.join == 5 {
+					// the clipped miter / arcs join of the library ends at sqrt(1+limit^2)*w/2 (known finding)
+					for _, pl := range pls {
+						for _, v := range pl.pts {
+							if joinsAt[v] && pt.Dist(v) <= math.Sqrt(1+lim*lim)*hw+band {
+								cls = "spurious-beyond-miter-limit"
+							}
+						}
+					}
 				}
 				c.Fail(fmt.Sprintf("stroke-curved:%s:%s:%s%s", st.name(), class, cls, suffix), verdict, map[string]any{"P": P.String(), "w": w, "style": st.name(), "limit": st.limit, "tol": tol, "point": []float64{pt.X, pt.Y}, "R": R.String()})
 				break
@@ -905,4 +1033,155 @@ func regionCurved(c *hc.Ctx) {
 			c.Sample(fmt.Sprintf("Stroke(%v, %s) of %q -> %q", w, st.name(), P.String(), R.String()))
 		}
 	}
+}
+
+// ---------------------------------------------------------------------------------------------
+// 7. Offset(d) of closed curved contours (one-segment cubic loops, circles): Go-side oracle
+
+func finePolygon(P *canvas.Path) ([]hc.P2, float64, bool) {
+	segs, err := hc.Decode(P.Data())
+	if err != nil {
+		return nil, 0, false
+	}
+	var v []hc.P2
+	maxErr := 0.0
+	for _, s := range segs {
+		switch s.Kind {
+		case 'M':
+			v = append(v, s.End)
+		case 'L', 'Z':
+			if v[len(v)-1] != s.End {
+				v = append(v, s.End)
+			}
+		default:
+			const k = 256
+			sm := hc.SampleSeg(s, k)
+			for i := 0; i+1 < len(sm); i++ {
+				mid := s.At((float64(i) + 0.5) / k)
+				maxErr = math.Max(maxErr, hc.DistPointSeg(mid, sm[i], sm[i+1]))
+			}
+			v = append(v, sm[1:]...)
+		}
+	}
+	if len(v) > 1 && v[0] == v[len(v)-1] {
+		v = v[:len(v)-1]
+	}
+	return v, maxErr, len(v) >= 3
+}
+
+func offsetCurved(c *hc.Ctx) {
+	n := c.N / 3
+	for it := 0; it < n; it++ {
+		var P *canvas.Path
+		class := ""
+		if c.Chance(0.8) {
+			P, class = genTeardrop(c)
+		} else {
+			P = canvas.Circle(float64(2 + c.Intn(4)))
+			class = "circle"
+			if c.Bool() {
+				P = P.Reverse()
+				class = "circle-cw"
+			}
+		}
+		v, chordErr, ok := finePolygon(P)
+		if !ok || !isSimpleCoarse(v) {
+			c.Count("offset-curved:skip-not-simple")
+			continue
+		}
+		d := []float64{0.25, 0.5, 1, 1.5}[c.Intn(4)]
+		if c.Bool() {
+			d = -d
+		}
+		ad := math.Abs(d)
+		ccw := hc.Area(v) > 0
+		grow := (d > 0) == ccw
+		tol := ad / 50
+		c.Evals++
+		var R, Rf *canvas.Path
+		if msg := hc.Try(func() {
+			R = P.Offset(d, tol)
+			Rf = R.Flatten(tol)
+		}); msg != "" {
+			first := strings.SplitN(msg, "\n", 2)[0]
+			c.Fail("panic:offset-curved:"+first, "Offset panicked: "+first, map[string]any{"P": P.String(), "d": d})
+			continue
+		}
+		res, ok := resultContours(Rf)
+		if !ok {
+			c.Fail("result-not-flat", "flattened Offset result is not a flat well-formed path", map[string]any{"P": P.String(), "d": d})
+			continue
+		}
+		pls := []polyline{{pts: v, closed: true}}
+		band := 2*tol + 2*chordErr + snapMargin
+		lo, hi := ad-band, ad+band
+		start := hc.P2{X: P.Data()[1], Y: P.Data()[2]}
+		pts := probePoints(c, pls, res, ad, band, 36, strokeStyle{1, 1, 4})
+		pts = append(pts, joinProbes(c, pls, func(q hc.P2) bool { return q == start }, ad, strokeStyle{1, 1, 4}, 12)...)
+		gs := "shrink"
+		if grow {
+			gs = "grow"
+		}
+		suffix := ""
+		if !grow && ad > 0.9*inradiusEstimate(v) {
+			suffix = "+beyond-inradius"
+		}
+		cs := [][]hc.P2{v}
+		for _, pt := range pts {
+			dist := hc.DistToContours(pt, cs)
+			inside := hc.WnFloat(pt, cs) != 0
+			filled := hc.WnFloat(pt, res) != 0
+			var expect, decided bool
+			if grow {
+				if inside && dist > band || dist < lo {
+					expect, decided = true, true
+				} else if !inside && dist > hi {
+					expect, decided = false, true
+				}
+			} else {
+				if inside && dist > hi {
+					expect, decided = true, true
+				} else if !inside && dist > band || dist < lo {
+					expect, decided = false, true
+				}
+			}
+			if !decided {
+				c.Count("offset-curved:point-in-band")
+				continue
+			}
+			c.Evals++
+			if expect != filled {
+				cls := "offset-hole"
+				if filled {
+					cls = "offset-spurious"
+				}
+				margin := math.Min(math.Abs(dist-lo), math.Abs(dist-hi))
+				if margin <= canvas.Tolerance && !(inside && grow) && !(!inside && !grow) {
+					cls += "-within-global-Tolerance"
+				}
+				// where: at the join vertex (the nearest point of the contour is the vertex itself) or
+				// along the curve
+				if pt.Dist(start) <= dist+1e-9 {
+					cls += "@join"
+				} else {
+					cls += "@curve"
+				}
+				c.Fail(fmt.Sprintf("offset-curved:%s:%s:%s%s", gs, class, cls, suffix),
+					fmt.Sprintf("Offset(%v): point (%v,%v) inside=%v at distance %.6g from the contour: expected filled=%v", d, pt.X, pt.Y, inside, dist, expect),
+					map[string]any{"P": P.String(), "d": d, "tol": tol, "point": []float64{pt.X, pt.Y}, "R": R.String()})
+				break
+			}
+		}
+		c.Count("offset-curved:" + class + ":" + gs + suffix)
+		c.Distinct("offset-curved" + P.String() + fmt.Sprint(d))
+	}
+}
+
+// isSimpleCoarse: the fine polygon does not cross itself (checked on every 8th vertex)
+func isSimpleCoarse(v []hc.P2) bool {
+	var w []hc.P2
+	for i := 0; i < len(v); i += 8 {
+		w = append(w, v[i])
+	}
+	return isSimple(w)
 }
